@@ -138,6 +138,12 @@ def handlePlan (c : Case) : Verdict :=
       match planViolation used idx packs impl with
       | some (sig, d) => .specfalse sig d
       | none =>
+      -- C10 on the real plan: under full-prune options the resulting index is exact
+      let full := forced && !o.repackCacheableOnly && used.eraseDups.length == used.length
+      let ab := afterBlobs impl idx
+      if full && !(ab.all fun b => used.contains b) then .specfalse "C10:plan:unreachable-blob-stays-indexed" "" else
+      if full && !(used.all fun b => ab.count b ≤ 1) then .specfalse "C10:plan:blob-indexed-twice-after-full-prune" "" else
+      if full && !fullPlanOK used idx packs impl then .specfalse "C10:plan:index-not-exact-after-full-prune" "" else
       match model with
       | .error me => .differ "error" s!"model={errName me} impl=ok"
       | .ok m =>
